@@ -72,6 +72,9 @@ def main():
         if not m:
             continue
         kind, f, owner, fn, n = m.groups()
+        if (f, fn) in MULTI and (kind == "MULTI" or not re.search(r'\("%s", "[^"]*", "%s", "' % (re.escape(f), re.escape(fn)), thin)):
+            rows.append((f, owner, fn) + MULTI[(f, fn)])
+            continue
         if kind == "THIN":
             hit = re.search(r'\("%s", "[^"]*", "%s", "' % (re.escape(f), re.escape(fn)), thin)
             if hit:
